@@ -82,6 +82,13 @@ def run(ctx):
     target = ctx.n(48, 800)
     done = k = 0
     adaptive_records = []
+    entry_list = []
+    pick_rng = np.random.default_rng(20202)     # separate stream: the fixed sample below must stay the validated one
+    shifted_left = ctx.n(6, 60)
+    pending = []
+    import finder_helpers
+    import region_model
+    region_rec = region_model.RegionRecorder(max_records=ctx.n(40, 300), stride=4)
     shared = SBC()          # one long-lived object: results must not depend on what it did before
     recorded = [e["repro"] for e in common.known_findings().get("known", []) if e.get("property") == "C02" and "repro" in e]
     contract_ok = contract_fail = 0
@@ -91,6 +98,8 @@ def run(ctx):
             r = recorded.pop(0)
             a, desc, exp = crystals.atoms_from_json(r["atoms"]), dict(r["desc"], known_finding_input=True), r["expected_dim"]
             seed = desc["seed"]
+        elif pending:
+            a, desc, exp, seed = pending.pop(0)
         else:
             s, desc, exp, why = gen(rng, k)
             k += 1
@@ -102,12 +111,22 @@ def run(ctx):
             seed = int(rng.integers(0, 1000))
             desc.update({"noise": noise, "seed": seed, "natoms": len(a)})
             done += 1
+            # directed: the same slab moved rigidly OUT of its box along the non-periodic direction (not wrapped): below, above, across
+            if shifted_left > 0 and desc["kind"] == "slab" and not a.get_pbc().all():
+                ax = [i for i in range(3) if not a.get_pbc()[i]][0]
+                t = [-0.45, 0.6, 1.3, -1.2, 0.25, -0.8][shifted_left % 6]
+                a2 = a.copy()
+                a2.set_positions(a2.get_positions() + t * np.array(a2.get_cell())[ax])
+                pending.append((a2, dict(desc, shifted_out_of_box=t), exp, seed))
+                shifted_left -= 1
         ctx.count("kind_" + desc["kind"])
         try:
-            with SC.FinderRecorder() as rec, SC.ProtoRecorder() as prec:
+            with SC.FinderRecorder() as rec, SC.ProtoRecorder() as prec, region_rec:
                 clusters = shared.get_clusters(a, seed=seed)
             if len(adaptive_records) < 500:
                 adaptive_records.extend(prec.adaptive[:30])
+            if len(entry_list) < 200:
+                entry_list.extend(finder_helpers.entry_items(a, rec.system, pick_rng, desc["kind"]))
             dims = [c.get_dimensionality() for c in clusters]
         except Exception as e:  # noqa
             bad.append({"desc": desc, "signature": "exception", "expected_dim": exp, "complaint": "exception %s: %s (SBC object re-used over the samples of this run)" % (type(e).__name__, str(e)[:150]), "atoms": crystals.atoms_to_json(a)})
@@ -141,8 +160,8 @@ def run(ctx):
         seen.add(key)
         ctx.finding(key, "%s %s: %s" % (b["desc"]["crystal"], b["desc"]["kind"], b["complaint"]),
                     {"kind": "failing-input", "case": b, "how": "SBC().get_clusters(atoms, seed=seed) with default parameters"})
-    import finder_helpers
-    finder_helpers.check(ctx, broken, adaptive_records)
+    finder_helpers.check(ctx, broken, adaptive_records, entry_list)
+    region_model.check(ctx, broken, region_rec.records)
     if broken and not ctx.unknown_findings():
         ctx.finding("unproved", "conditional theorem no longer checks, no failing crystal found", {"kind": "broken-obligation", "broken": broken}, found_input=False)
     ctx.coverage["broken"] = [{"what": k_, "info": i} for k_, i in broken]
